@@ -1365,6 +1365,9 @@ int errBoundMode, double absErr_Bound, double relBoundRatio)
 		{
 			printf("Error: doesn't support 5 dimensions for now.\n");
 			status = SZ_DERR; //dimension error
+			*newByteData = NULL; //no stream is produced: nothing must be wrapped or returned
+			*outSize = 0;
+			return status;
 		}
 		//Call Gzip to do the further compression.
 		if(confparams_cpr->szMode==SZ_BEST_SPEED)
